@@ -301,6 +301,12 @@ def run(ctx):
                         selftest=2)
     results += ctx.sweep(functools.partial(check_module, case=case), light, space="modules x configurations", chunk=16,
                          selftest=8)
+    # the other two spellings of command names: every module of <= 2 events under the single-flag deviations
+    short = [(h, "single") for h in hs if len(h) <= 2]
+    for oc in [c for c in ("lower", "upper", "mixed") if c != case]:
+        jobs += short
+        results += ctx.sweep(functools.partial(check_module, case=oc), short, space=f"modules <=2 events, {oc} case", chunk=16,
+                             selftest=2)
     known = sum(r["known"] for r in results)
     ctx.cov["distinct_pages"] = sum(r["ndig"] for r in results)
     if known:
@@ -322,5 +328,9 @@ def replay(case):
     mode = case[1] if isinstance(case, list) else case.get("mode", "all")
     if not events:
         return []
-    r = check_module((events, mode), "lower")
-    return r["viol"] or ((r["k1_example"] or []) if isinstance(case, dict) and case.get("k1") else [])
+    for cs in ("lower", "upper", "mixed"):
+        r = check_module((events, mode), cs)
+        m = r["viol"] or ((r["k1_example"] or []) if isinstance(case, dict) and case.get("k1") else [])
+        if m:
+            return m
+    return []
